@@ -1544,6 +1544,40 @@ def capture_bcount():
     return {"runs": runs, "errors": errors, "skeletons": {k_: v[1] for k_, v in skel.items()}}
 
 
+BC_COUNT = "__splink__df_count"
+# (tag, number of input tables, link type, source_dataset_column_name)
+BC_RC_RUNS = [("all", 1, "dedupe_only", None), ("bySd", 2, "link_only", "mksd"), ("bySd", 3, "link_and_dedupe", "mksd"), ("bySdDefault", 2, "link_only", None)]
+
+
+def capture_rowcounts(errors):
+    """`_row_counts_per_input_table`: the `__splink__df_count` statement, captured from real runs of
+    cumulative_comparisons_to_be_scored_from_blocking_rules_data.  The source dataset column is a MARKER name (`mksd`) and becomes the
+    parameter `sd`; the run with the default name must give the same statement up to that name.  -> {tag: sql}"""
+    import pandas as pd
+
+    from splink import DuckDBAPI
+    from splink.internals.blocking_analysis import cumulative_comparisons_to_be_scored_from_blocking_rules_data
+
+    found = {}
+    for tag, ntab, lt, sdname in BC_RC_RUNS:
+        dfs = [pd.DataFrame({"unique_id": [3 * t + 1, 3 * t + 2, 3 * t + 3], "a": pd.array(["x", "x", None], dtype="string")}) for t in range(ntab)]
+        kw = {} if sdname is None else {"source_dataset_column_name": sdname}
+        with Capture() as cap:
+            api = DuckDBAPI()
+            cumulative_comparisons_to_be_scored_from_blocking_rules_data(table_or_tables=dfs, blocking_rules=["l.a = r.a"], link_type=lt, db_api=api, **kw)
+        hits = [e for e in cap.rec if e["out"][0] == BC_COUNT]
+        if len(hits) != 1 or [nm for nm, _ in hits[0]["ctes"]] != [BC_CONCAT, BC_COUNT]:
+            errors.append(f"rowcounts/{tag}: expected one pipeline [{BC_CONCAT}, {BC_COUNT}], got {[[nm for nm, _ in e['ctes']] for e in hits]}")
+            continue
+        sql = _norm(hits[0]["ctes"][1][1])
+        if tag == "bySdDefault":
+            sql, tag = sql.replace('"source_dataset"', '"mksd"'), "bySd"
+        if tag in found and found[tag] != sql:
+            errors.append(f"rowcounts/{tag}: the statement differs between link types / source dataset column names: {found[tag]!r} vs {sql!r}")
+        found.setdefault(tag, sql)
+    return found
+
+
 def write_bcount() -> list[str]:
     """(Re)generate Generated/BCountSql.lean.  Returns error strings."""
     cap = capture_bcount()
@@ -1613,6 +1647,24 @@ def write_bcount() -> list[str]:
             L.append(f"/-- run `{tag}`: the statements after `__splink__df_concat`, in the order the code issues them -/")
             L.append(f"def {tag}Stmts{args} : List Stmt :=\n  [" + ", ".join(f"⟨{lean_str(nm)}, {c}⟩" for nm, c in body) + "]")
             L.append("")
+    rc = capture_rowcounts(errors)
+    for tag, ident, cp in (("all", "rowCountAll", {}), ("bySd", "rowCountBySd", {"mksd": "sd"})):
+        sql = rc.get(tag)
+        if sql is None:
+            errors.append(f"rowcounts: no statement captured for {tag}")
+            continue
+        tr = Translator({BC_CONCAT: ["mksd", "unique_id", "a"]}, {}, {BC_CONCAT: ["str", "int", "str"]}, colparams=cp)
+        try:
+            term, cols = tr.statement(sql)
+        except Untranslatable as e:
+            errors.append(f"rowcounts/{tag}: {e}")
+            L.append(f"-- UNTRANSLATABLE: rowcounts/{tag}: `{sql}`")
+            continue
+        if tr.used_params != list(cp.values()) or list(cols) != ["count"]:
+            errors.append(f"rowcounts/{tag}: parameters {tr.used_params}, columns {list(cols)} (expected {list(cp.values())}, ['count'])")
+        L.append(f"/-- `_row_counts_per_input_table`, `{BC_COUNT}` ({'dedupe_only' if tag == 'all' else 'link_only / link_and_dedupe; `sd` = the source dataset column'}): `{sql}` ; columns {list(cols)} -/")
+        L.append(f"def {ident}{''.join(f' ({v} : Expr)' for v in cp.values())} : Rel :=\n  {term}")
+        L.append("")
     L.append("end SplinkVerif.Gen.BCountSql")
     text = "\n".join(L) + "\n"
     p = GEN / "BCountSql.lean"
